@@ -315,6 +315,7 @@ long vs_cell_add(int i, long d) { return G.cell[i] += d; }
 void vs_clock_advance_ms(long ms) { G.clock_ns += (int64_t)ms * 1000000; }
 long vs_clock_ms(void) { return (long)(G.clock_ns / 1000000); }
 const struct vs_ev *vs_log(int *n) { *n = G.slot ? G.slot->nev : 0; return G.slot ? G.slot->ev : NULL; }
+int vs_thread_finished(int tid) { return tid >= 0 && tid < G.nt && G.T[tid].state == ST_FINISHED; }
 int vs_thread_waiting(int tid) { return tid >= 0 && tid < G.nt && G.T[tid].state == ST_WAITCV; }
 void vs_block_until(int (*pred)(void *), void *arg) {
     if (!controlled()) return;
